@@ -219,8 +219,22 @@ fn build_simple_type_evaluator(feel_type: FeelType, av_evaluator: Option<Evaluat
 ///
 fn build_referenced_type_evaluator(ref_type: String) -> Result<ItemDefinitionEvaluatorFn> {
   Ok(Box::new(move |value: &Value, evaluators: &ItemDefinitionEvaluator| {
-    evaluators.eval(&ref_type, value).unwrap_or_else(|| value_null!("no evaluator"))
+    // item definitions that refer to each other in a circle without descending
+    // into the components of the value describe no value at all
+    let resolved = (ref_type.clone(), value as *const Value as usize);
+    if RESOLVED.with(|all_resolved| all_resolved.borrow().contains(&resolved)) {
+      return value_null!("cyclic item definition");
+    }
+    RESOLVED.with(|all_resolved| all_resolved.borrow_mut().push(resolved));
+    let result = evaluators.eval(&ref_type, value).unwrap_or_else(|| value_null!("no evaluator"));
+    RESOLVED.with(|all_resolved| all_resolved.borrow_mut().pop());
+    result
   }))
+}
+
+thread_local! {
+  /// Type references being resolved for values (identified by address), innermost last.
+  static RESOLVED: std::cell::RefCell<Vec<(String, usize)>> = std::cell::RefCell::new(vec![]);
 }
 
 ///
